@@ -25,6 +25,7 @@ type Ctx struct {
 	Kinds map[string]int
 	Repo  string
 	Bin   string // path of the decipher CLI built from /repo (for CLI-level cases)
+	BinV  string // the same CLI built with -tags verif (batch printInfo hook)
 	Tmp   string // scratch directory
 }
 
@@ -59,6 +60,9 @@ func main() {
 		}
 		if len(os.Args) > 6 {
 			c.Bin = os.Args[6]
+		}
+		if len(os.Args) > 7 {
+			c.BinV = os.Args[7]
 		}
 		c.W = bufio.NewWriterSize(os.Stdout, 1<<20)
 		g, ok := gens[prop]
